@@ -69,6 +69,8 @@ var c02Metas = []http.Header{
 	{"X-A": {"v1", "two words"}},
 	{"X-A": {"a,b"}, "X-C-Bin": {connect.EncodeBinaryHeader([]byte{0, 1, 0xff, 0xfe})}},
 	{"X-A": {"100%", "k:v"}, "X-B": {"w1"}},
+	// empty values: alone under a key, and between two others
+	{"X-Empty": {""}, "X-A": {"a", "", "b"}},
 }
 
 type c02Case struct {
